@@ -60,6 +60,9 @@ def run(ctx):
                 files = r.sample(keep, min(50, len(keep))) + r.sample([q for q in files if q not in keep], 100) + [root / "metadata.json"]
                 files = sorted(set(files))
             enc_budget = ctx.n(6, 60)
+            # besides the random sample: one encode probe per field (every array encoder reads a
+            # different field), for the first stores
+            probed_fields = set() if si < ctx.n(2, 8) else None
             for q in files:
                 data = q.read_bytes()
                 size = len(data)
@@ -89,8 +92,12 @@ def run(ctx):
                         out = "ERR"
                     if out != "ERR":
                         ctx.fail(doc, dict(outcome=out), f"{doc['file']} {doc['damage']}: reading the affected field raised no error ({out.lower()} values returned)")
-                    elif enc_budget > 0 and (L is None or L % 8 == 0) and r.random() < 0.15:
-                        enc_budget -= 1
+                    elif (kind != "metadata" and probed_fields is not None and field_of(q, root) not in probed_fields and (L is None or (L is not None and L >= size // 2))) \
+                            or (enc_budget > 0 and (L is None or L % 8 == 0) and r.random() < 0.15):
+                        if kind != "metadata" and probed_fields is not None and field_of(q, root) not in probed_fields and (L is None or L >= size // 2):
+                            probed_fields.add(field_of(q, root))
+                        else:
+                            enc_budget -= 1
                         outp = os.path.join(d, "enc.vcz")
                         shutil.rmtree(outp, ignore_errors=True)
                         try:
